@@ -40,6 +40,7 @@ class SysInterp(Interp):
         self.bal_class = {}     # process -> 'ok' | 'bad' | 'nan'
         self.flow_class = {}    # flow leaf name -> 'ok' | 'neg' | 'nan'
         self.undecided = []
+        self.magnitude_orders = 0
         self.stale = set()      # leaf names of value arrays that have been replaced since (history cases)
         self.stale_used = []    # tolerances that were built from replaced values
 
@@ -112,6 +113,12 @@ class SysInterp(Interp):
                             self.stale_used.append(old)
                 sa = set() if self.is_tolerance(a) else self.subject(a)
                 sb = set() if self.is_tolerance(b) else self.subject(b)
+                if name in ("lt", "le", "gt", "ge") and not self.is_tolerance(a) and not self.is_tolerance(b) and self.is_magnitude(a) and self.is_magnitude(b) \
+                        and self.leaf_names(a) and self.leaf_names(b) and not any(s[0] == "bal" for s in sa | sb):
+                    # which of two magnitudes (largest |entry| of some arrays) is the larger one: a running maximum written as a
+                    # branch.  One order is followed; the tolerance built from it is a tolerance either way.
+                    self.magnitude_orders += 1
+                    return name in ("gt", "ge")
                 if sa and not sb:
                     return self.cmp(name, sa, a, b)
                 if sb and not sa:
@@ -125,6 +132,21 @@ class SysInterp(Interp):
                         return {"lt": False, "le": False, "gt": True, "ge": True, "eq": False, "ne": True}[name]
                 return None
         return None
+
+    @staticmethod
+    def is_magnitude(t):
+        """largest absolute entry of arrays (and maxima of such): max_over(abs(leaf)), pymax(...), constants"""
+        if not isinstance(t, tuple):
+            return False
+        if t[0] == "k":
+            return True
+        if t[0] == "fn" and t[1] in ("max_over", "amax_over", "nanmax_over", "pymax"):
+            return all(SysInterp.is_magnitude(x) or (isinstance(x, tuple) and x[0] == "k") for x in t[2] if isinstance(x, tuple) and not (x[0] == "k" and isinstance(x[1], str)))
+        if t[0] == "fn" and t[1] == "abs":
+            return True
+        if t[0] == "sum" and t[1] == frozenset():
+            return SysInterp.is_magnitude(t[2])
+        return False
 
     @staticmethod
     def leaf_names(t):
